@@ -235,7 +235,7 @@ def delta_values(ptype, n, rng, bits, rng_lohi=None):
     cur = int(rng.integers(max(lo, -1000), min(hi, 1000), endpoint=True))
     for i in range(n):
         vals.append(cur)
-        step = int(rng.integers(0, span, endpoint=True)) if span else 0
+        step = (int(rng.integers(0, 2 ** 62)) * 4 + int(rng.integers(0, 4))) % (span + 1) if span else 0
         if i == 0 and span:
             step = span
         if rng.random() < 0.5:
